@@ -144,7 +144,7 @@ def gen_design(rng, i: int) -> dict | None:
     t0 = rng.choice(d['targetons'])
     # the variant under study: starts inside a targeton
     kinds = ['syn', 'aa', 'aa', 'non', 'stopstop', 'mnv', 'inframe_indel', 'fs_indel', 'fs_indel', 'intron_into_exon', 'nc_snv', 'nc_indel', 'pam_on_bg',
-             'junction_aa', 'junction_syn', 'pam_on_del']
+             'junction_aa', 'junction_syn', 'pam_on_del', 'junction_aa', 'junction_aa']
     kind = kinds[i % len(kinds)]
     coding_pos = [p for p in range(t0['ref_start'] + 1, t0['ref_end'] - 7) if inex(p) and fr.codon_positions(p) and p not in pam_pos]
     nonc_pos = [p for p in range(t0['ref_start'] + 1, t0['ref_end'] - 7) if not any(inex(q) for q in range(p - 2, p + 8)) and p not in pam_pos]
